@@ -119,6 +119,9 @@ structure FieldTy where
   layout : Option Layout
   /-- canonical type is `Array(inner, len)`: `(inner.layout, len)` -/
   array : Option (Option Layout × Nat) := none
+  /-- the member's Rust type transitively contains a `#[repr(align(N))]` type (rustc refuses such a
+  member inside a `packed` type, E0588); irrelevant for the tracker -/
+  containsAlign : Bool := false
 deriving Repr, DecidableEq
 
 /-- `saw_field`, including the array-of-over-aligned-elements hack -/
